@@ -76,7 +76,9 @@ def write_file(path, e):
     segs = e.get("segs")
     fd = os.open(path, os.O_WRONLY | os.O_CREAT | os.O_TRUNC, 0o600)
     try:
-        if segs is None:
+        if "text" in e:
+            os.write(fd, b(e["text"]))
+        elif segs is None:
             pos = 0
             while pos < size:
                 n = min(1 << 22, size - pos)
